@@ -136,6 +136,7 @@ type Run struct {
 	nontrv bool
 	ntSet  bool
 	done   bool
+	cleanup []func()
 }
 
 type statKV struct {
@@ -155,10 +156,15 @@ func (r *Run) Logf(format string, a ...interface{}) {
 	s := fmt.Sprintf(format, a...)
 	RaceOff()
 	r.mu.Lock()
+	// hash on goroutine-local copies: sha256 is instrumented code and must not
+	// see the shared state (race builds)
+	prev := r.evHash
 	h := sha256.New()
-	h.Write(r.evHash[:])
+	h.Write(prev[:])
 	h.Write([]byte(s))
-	copy(r.evHash[:], h.Sum(nil))
+	var sum [32]byte
+	copy(sum[:], h.Sum(nil))
+	r.evHash = sum
 	r.nEv++
 	if r.keep {
 		r.events = append(r.events, fmt.Sprintf("%d t=%v g=%x %s", r.nEv, time.Since(r.start), runtime.GosimID()&0xffff, s))
@@ -208,6 +214,29 @@ func (r *Run) OpDone() { r.Add("_ops", 1) }
 // SetNontrivial lets a world override the default non-triviality rule.
 func (r *Run) SetNontrivial(b bool) { r.nontrv = b; r.ntSet = true }
 
+// Cleanup registers a function to run just before the process exits (temp dirs).
+func (r *Run) Cleanup(f func()) {
+	r.mu.Lock()
+	r.cleanup = append(r.cleanup, f)
+	r.mu.Unlock()
+}
+
+// TempDir creates a private directory for durable state of this run; it is
+// removed when the run ends. Its name never appears in the event log.
+func (r *Run) TempDir() string {
+	base := os.Getenv("GOSIM_TMP")
+	if base == "" {
+		base = os.TempDir()
+	}
+	d, err := os.MkdirTemp(base, fmt.Sprintf("gosim-%d-", os.Getpid()))
+	if err != nil {
+		fmt.Fprintln(os.Stderr, "HARNESS-ERROR tempdir:", err)
+		os.Exit(2)
+	}
+	r.Cleanup(func() { os.RemoveAll(d) })
+	return d
+}
+
 // Violate records a violation and ends the run at once.
 func (r *Run) Violate(class, format string, a ...interface{}) {
 	msg := fmt.Sprintf(format, a...)
@@ -252,8 +281,9 @@ func (r *Run) finish(v *Violation) {
 	for _, k := range keys {
 		fmt.Fprintf(h, "%s=%d;", k, stats[k])
 	}
-	h.Write(r.evHash[:])
-	h.Write(sched.tapeHash[:])
+	ev, tp := r.evHash, sched.tapeHash
+	h.Write(ev[:])
+	h.Write(tp[:])
 	res.Sig = hex.EncodeToString(h.Sum(nil)[:8])
 	if r.ntSet {
 		res.Nontrivial = r.nontrv
@@ -275,6 +305,9 @@ func (r *Run) finish(v *Violation) {
 	r.mu.Unlock()
 	b, _ := json.Marshal(res)
 	os.Stdout.Write(append(append([]byte("RESULT "), b...), '\n'))
+	for _, f := range r.cleanup {
+		f()
+	}
 	if profFile != nil {
 		pprof.StopCPUProfile()
 		profFile.Close()
@@ -478,10 +511,13 @@ func schedLoop(ready chan struct{}) {
 		putU64(b[0:], uint64(len(cand)))
 		putU64(b[8:], st.id)
 		putU64(b[16:], uint64(s.nPick))
+		prevTape := s.tapeHash
 		h := sha256.New()
-		h.Write(s.tapeHash[:])
+		h.Write(prevTape[:])
 		h.Write(b[:])
-		copy(s.tapeHash[:], h.Sum(nil))
+		var sum [32]byte
+		copy(sum[:], h.Sum(nil))
+		s.tapeHash = sum
 		s.mu.Unlock()
 		st.resume <- struct{}{}
 	}
@@ -549,6 +585,16 @@ func Main(t *testing.T) {
 	}
 	if plan == nil {
 		plan = GenPlan(w, *fSeed, *fTier)
+	}
+	// Every plan goes through the same JSON round trip, generated or loaded, so
+	// that lazily initialised package state (encoding/json caches ...) is warmed
+	// identically before the bubble: a plan replayed from a file must be the
+	// same execution as the plan generated from its seed.
+	if b, err := json.Marshal(plan); err == nil {
+		p2 := &Plan{}
+		if json.Unmarshal(b, p2) == nil {
+			plan = p2
+		}
 	}
 	if *fGen {
 		b, _ := json.Marshal(plan)
